@@ -85,6 +85,14 @@ def check(ctx: Ctx) -> None:
     sites = ctx.prog.global_mutation_sites(CORE, "_VOID_TAG_NAMES")
     ctx.check(not sites, "C01.void", "_VOID_TAG_NAMES is never mutated", f"{CORE}:_VOID_TAG_NAMES",
               sites[0]["text"] if sites else "", "the void set is modified at run time")
+    # text of ordinary elements must be escaped: the only raw-text elements are script and style
+    from ..rendercheck import NOESC2
+    extra = sorted(set(m.noesc) - set(NOESC2))
+    ctx.check(not extra, "C01.text", "text is written unescaped only inside script/style", f"{CORE}:_NO_ESCAPE_TAG_NAMES", f"no-escape set {sorted(m.noesc)}",
+              f"text leaves of <{extra[0] if extra else ''}> are written without escaping: markup metacharacters in them do not decode to the original text "
+              f"(and '<' opens a tag for elements whose content is parsed)", witness=f"Tag({extra[0] if extra else 'title'!r}, 'a &lt; b <i>')")
+    from .c15 import name_idempotence
+    name_idempotence(ctx, "C01.attrs")
     # .1-.3 frames
     nf = 0
     for sc, hits in frames(m):
